@@ -318,3 +318,16 @@ def _(h):
 @ctor('SO2.Exp', 'SO2')
 def _(h):
     return SO2.Exp([h.angle('th', 1e-3, 6.28)]).A
+
+
+@ctor('UQ(Nx4 array)', 'UQ')
+def _(h):
+    """the N x 4 array form: every stored element is a unit quaternion (first row returned)"""
+    q, r = h.vec('q', 4, -1e3, 1e3), h.vec('r', 4, -1e3, 1e3)
+    h.assume(nsq(q) >= 1e-6)
+    h.assume(nsq(r) >= 1e-6)
+    X = UnitQuaternion(h.arr([list(q), list(r)]))
+    h.true('two values', len(X) == 2)
+    h.true('elements are 4-vectors', all(np.shape(d) == (4,) for d in X.data))
+    h.eq('second element unit', nsq(X.data[1]), 1)
+    return X.data[0]
